@@ -178,6 +178,48 @@ func main() {
 			}
 			w.Close()
 		}
+		// the same snippet as the default of the global ConfigMap: "Configuration snippets added as a global config does not
+		// follow this option" (command-line documentation) -- a sample of the texts, one controller each
+		for i := 0; i < len(g.Texts); i += 23 {
+			text := strings.Join(g.Texts[i], "")
+			if strings.TrimSpace(text) == "" {
+				continue
+			}
+			w, err := world.New(*work, nil, pipeline.Options{WatchWithoutClass: true, DisableKeywords: g.Kw, ConfigMapName: "ingress/cfg"})
+			if err != nil {
+				fmt.Fprintln(os.Stderr, err)
+				os.Exit(2)
+			}
+			p := w.P
+			p.Apply(kobj.ConfigMap("ingress", "cfg", map[string]string{"config-backend": text}))
+			p.Apply(kobj.Service("d", "sg", nil, ":8080:8080"))
+			p.Apply(kobj.Endpoints("d", "sg", []string{"10.1.0.1:p"}, nil, ":8080"))
+			p.Apply(kobj.Ingress("d", "ig", 1, nil, nil, []kobj.Rule{{Host: "hg.local", Paths: []kobj.Path{{Path: "/", Svc: "sg", Port: "8080"}}}}, nil, nil))
+			if _, err := p.ReconcilePending(false); err != nil {
+				fmt.Fprintln(os.Stderr, err)
+				os.Exit(2)
+			}
+			r := rec{ID: fmt.Sprintf("g%d-%d-global", gi, i), Src: "global", Kw: kwc, KwOpt: kwopt, Text: g.Texts[i], Lines: [][]string{}}
+			data, _ := os.ReadFile(filepath.Join(w.Opt.CfgDir(), "haproxy.cfg"))
+			cur := ""
+			for _, l := range strings.Split(string(data), "\n") {
+				l = strings.TrimSuffix(l, "\r") // as bufio.ScanLines does for the other sources
+				if l != "" && l[0] != ' ' && l[0] != '\t' && l[0] != '#' {
+					fs := strings.Fields(l)
+					cur = ""
+					if len(fs) > 1 && fs[0] == "backend" {
+						cur = fs[1]
+					}
+					continue
+				}
+				if cur == "d_sg_8080" && isSnippetLine(l, "abA*") {
+					r.Lines = append(r.Lines, chars(strings.TrimPrefix(l, "    ")))
+				}
+			}
+			_ = enc.Encode(r)
+			n++
+			w.Close()
+		}
 	}
 	fmt.Printf("{\"backends\":%d}\n", n)
 }
